@@ -367,6 +367,7 @@ pub fn def() -> PropDef {
                 cases_quick: 3_000_000,
                 cases_thorough: 40_000_000,
                 max_shrink_iters: 4000,
+                limit_factor: 1,
                 strategy: digest_case,
                 check: digest_random,
             }),
@@ -376,6 +377,7 @@ pub fn def() -> PropDef {
                 cases_quick: 40_000,
                 cases_thorough: 400_000,
                 max_shrink_iters: 2000,
+                limit_factor: 1,
                 strategy: exh_case,
                 check: digest_exhaustive,
             }),
@@ -385,6 +387,7 @@ pub fn def() -> PropDef {
                 cases_quick: 200_000,
                 cases_thorough: 3_000_000,
                 max_shrink_iters: 2000,
+                limit_factor: 1,
                 strategy: derived_case,
                 check: derived,
             }),
